@@ -692,6 +692,9 @@ def run_entry(owner_name, owner, name, f, argtypes, ret):
                             # imath.f(python floats) resolves to the double overload; a float array result may differ from it by
                             # (condition number) x float eps.  Judged only where one float ulp on an input moves the answer less than that.
                             R.cls("o2_illconditioned_skipped")
+                        elif owner is I and is32 and isinstance(got, float) and isinstance(want, float) and abs(got) == float("inf") and abs(want) > 3.4028e38 and (got > 0) == (want > 0):
+                            # the double overload's finite result is beyond the float range: rounded to float it IS this infinity
+                            R.cls("o2_float_overflow_agrees_with_double_overload")
                         elif owner is I and is32 and isinstance(got, float) and isinstance(want, float) and (got != got or abs(got) == float("inf")) and inscale > 1e12:
                             # same cause: the double overload does not overflow where a float product of operands beyond 1e12 can
                             R.cls("o2_float_range_exceeded_skipped")
